@@ -395,13 +395,13 @@ theorem parseHost_hostPort (a : AddrParts) (hok : a.ok) : parseHost (a.host ++ p
     rw [lastIndexByte_append a.host p 58 (not_mem_digits p (hp p hpt).2).1]
     simp [validOptionalPort, (hp p hpt).2]
 
-/-- net/url.Parse of `[scheme:]//name[:port]` -/
-theorem urlParse_authority (a : AddrParts) (hok : a.ok) :
-    urlParse ((if a.scheme.isEmpty then [] else a.scheme ++ b!":") ++ (b!"//" ++ (a.host ++ portPart a))) =
-      some (toLower a.scheme, a.host ++ portPart a, []) := by
-  obtain ⟨_, h47, _, _, _, _⟩ := hostPort_facts a hok
-  have hph := parseHost_hostPort a hok
-  generalize hhp : a.host ++ portPart a = hp at h47 hph
+/-- the scheme prefix of an address text -/
+def schemePrefix (scheme : Bytes) : Bytes := if scheme.isEmpty then [] else scheme ++ b!"://"
+
+/-- net/url.Parse of `[scheme:]//hostport` for a host-port text without '/' that net/url's parseHost accepts -/
+theorem urlParse_authority_gen (scheme hp : Bytes) (halpha : scheme.all isAlpha = true) (h47 : (47 : UInt8) ∉ hp)
+    (hph : parseHost hp = some hp) :
+    urlParse ((if scheme.isEmpty then [] else scheme ++ b!":") ++ (b!"//" ++ hp)) = some (toLower scheme, hp, []) := by
   have hidx : indexByte hp 47 = none := indexByte_none_of_not_mem hp 47 h47
   have hno3 : hasPrefix (b!"//" ++ hp) b!"///" = false := by
     cases hp with
@@ -410,8 +410,8 @@ theorem urlParse_authority (a : AddrParts) (hok : a.ok) :
       have : c ≠ 47 := fun h => h47 (by simp [h])
       simp [hasPrefix, List.isPrefixOf, this, Ne.symm this]
   unfold urlParse
-  by_cases hs : a.scheme.isEmpty = true
-  · have hs' : a.scheme = [] := by simpa using hs
+  by_cases hs : scheme.isEmpty = true
+  · have hs' : scheme = [] := by simpa using hs
     have hstar : ((47 :: 47 :: hp) == b!"*") = false := by
       rw [beq_eq_false_iff_ne]; intro h; have := congrArg List.length h
       simp only [List.length_cons, List.length_nil] at this; omega
@@ -420,22 +420,76 @@ theorem urlParse_authority (a : AddrParts) (hok : a.ok) :
     have hp2 : hasPrefix (47 :: 47 :: hp) b!"//" = true := by simp [hasPrefix, List.isPrefixOf]
     have hno3' : hasPrefix (47 :: 47 :: hp) b!"///" = false := hno3
     simp [hs', hstar, gs, hp1, hp2, hno3', hidx, hph, toLower]
-  · have hne : a.scheme ≠ [] := by simpa using hs
+  · have hne : scheme ≠ [] := by simpa using hs
     simp only [hs, Bool.false_eq_true, if_false]
-    have hraw : a.scheme ++ b!":" ++ (b!"//" ++ hp) = a.scheme ++ 58 :: (b!"//" ++ hp) := by simp
+    have hraw : scheme ++ b!":" ++ (b!"//" ++ hp) = scheme ++ 58 :: (b!"//" ++ hp) := by simp
     rw [hraw]
-    have hstar : ((a.scheme ++ 58 :: (b!"//" ++ hp)) == b!"*") = false := by
+    have hstar : ((scheme ++ 58 :: (b!"//" ++ hp)) == b!"*") = false := by
       rw [beq_eq_false_iff_ne]; intro h; have := congrArg List.length h
       simp only [List.length_append, List.length_cons, List.length_nil] at this; omega
-    have := getScheme_alpha a.scheme (b!"//" ++ hp) hok.1 hne
+    have := getScheme_alpha scheme (b!"//" ++ hp) halpha hne
     simp only [hstar, Bool.false_eq_true, if_false, this]
     have hp1 : hasPrefix (47 :: 47 :: hp) b!"/" = true := by simp [hasPrefix, List.isPrefixOf]
     have hp2 : hasPrefix (47 :: 47 :: hp) b!"//" = true := by simp [hasPrefix, List.isPrefixOf]
-    have hle : (toLower a.scheme).isEmpty = false := by
-      cases hsc : a.scheme with
+    have hle : (toLower scheme).isEmpty = false := by
+      cases hsc : scheme with
       | nil => exact absurd hsc hne
       | cons c t => simp [toLower]
     simp [hp1, hp2, hidx, hph, hle]
+
+/-- net/url.Parse of `[scheme:]//name[:port]` -/
+theorem urlParse_authority (a : AddrParts) (hok : a.ok) :
+    urlParse ((if a.scheme.isEmpty then [] else a.scheme ++ b!":") ++ (b!"//" ++ (a.host ++ portPart a))) =
+      some (toLower a.scheme, a.host ++ portPart a, []) :=
+  urlParse_authority_gen a.scheme _ hok.1 (hostPort_facts a hok).2.1 (parseHost_hostPort a hok)
+
+theorem schemePrefix_facts (scheme : Bytes) (halpha : scheme.all isAlpha = true) :
+    noColonH (schemePrefix scheme) = true ∧ (schemePrefix scheme).getLast? ≠ some 58 ∧ inAddrDomain (schemePrefix scheme) = true := by
+  unfold schemePrefix
+  by_cases hs : scheme.isEmpty = true
+  · simp [hs, noColonH, inAddrDomain]
+  · have hsn := not_mem_name scheme (all_alpha_name _ halpha)
+    simp only [hs, Bool.false_eq_true, if_false]
+    refine ⟨?_, ?_, ?_⟩
+    · exact noColonH_append _ _ (noColonH_of_no_colon _ hsn.1) (by decide) (Or.inr (by decide))
+    · rw [getLast?_append_ne _ _ (by simp)]; decide
+    · unfold inAddrDomain
+      rw [List.all_append, Bool.and_eq_true]
+      refine ⟨?_, by decide⟩
+      have := all_alpha_name _ halpha
+      rw [List.all_eq_true] at this ⊢
+      intro c hc; exact (nameByte_facts c (this c hc)).2.2.2.2.2
+
+/-- THE FRONT HALF of standardizeAddress on `[scheme://]hostport`: for a host-port text without ":h", without '/', inside the
+address domain, that net/url's parseHost accepts, the `:http(s)` replacement and the "//" normalisation do nothing harmful and
+net/url.Parse delivers (lower-cased scheme, hostport, no path). -/
+theorem standardize_front (scheme hp : Bytes) (halpha : scheme.all isAlpha = true) (hnc : noColonH hp = true)
+    (h47 : (47 : UInt8) ∉ hp) (hdom : inAddrDomain hp = true) (hph : parseHost hp = some hp) :
+    standardizeAddress (schemePrefix scheme ++ hp) = finishStandardize (schemePrefix scheme ++ hp) (toLower scheme) hp [] := by
+  obtain ⟨pnc, plast, pdom⟩ := schemePrefix_facts scheme halpha
+  have hnoc : noColonH (schemePrefix scheme ++ hp) = true := noColonH_append _ _ pnc hnc (Or.inl plast)
+  have hind : inAddrDomain (schemePrefix scheme ++ hp) = true := by
+    unfold inAddrDomain at *
+    rw [List.all_append, pdom, hdom]; rfl
+  unfold standardizeAddress urlText
+  simp only [hind, Bool.not_true, Bool.false_eq_true, if_false]
+  have hr1 : replaceFirst (schemePrefix scheme ++ hp) b!":https" (b!":" ++ httpsPort) = schemePrefix scheme ++ hp := replaceFirst_noColonH _ _ _ hnoc
+  have hr2 : replaceFirst (schemePrefix scheme ++ hp) b!":http" (b!":" ++ httpPort) = schemePrefix scheme ++ hp := replaceFirst_noColonH _ _ _ hnoc
+  rw [hr1, hr2]
+  have hstr : (if (!containsSub (schemePrefix scheme ++ hp) b!"//" && !hasPrefix (schemePrefix scheme ++ hp) b!"/") = true
+      then b!"//" ++ (schemePrefix scheme ++ hp) else schemePrefix scheme ++ hp) =
+      (if scheme.isEmpty then [] else scheme ++ b!":") ++ (b!"//" ++ hp) := by
+    unfold schemePrefix
+    by_cases hs : scheme.isEmpty = true
+    · simp only [hs, if_true, List.nil_append]
+      rw [containsSub_false_of_not_mem _ b!"//" 47 (by simp) h47, hasPrefix_false_of_not_mem _ b!"/" 47 (by simp) h47]
+      simp
+    · simp only [hs, Bool.false_eq_true, if_false]
+      have : containsSub (scheme ++ 58 :: 47 :: 47 :: hp) b!"//" = true := by
+        have := containsSub_mid (scheme ++ b!":") b!"//" hp
+        simpa using this
+      simp [this]
+  rw [hstr, urlParse_authority_gen scheme hp halpha h47 hph]
 
 /-- the port of the table: the written one, else the scheme's -/
 def tablePort (scheme : Bytes) (port : Option Bytes) : Bytes :=
@@ -473,37 +527,15 @@ theorem prefix_facts (a : AddrParts) (hok : a.ok) :
       rw [List.all_eq_true] at this ⊢
       intro c hc; exact (nameByte_facts c (this c hc)).2.2.2.2.2
 
+theorem composeAddr_eq (a : AddrParts) : composeAddr a = schemePrefix a.scheme ++ (a.host ++ portPart a) := rfl
+
 /-- standardizeAddress on every well-formed `[scheme://]name[:port]`: the scheme/port table -/
 theorem standardize_compose (a : AddrParts) (hok : a.ok) : standardizeAddress (composeAddr a) = expectedAddr a := by
   obtain ⟨hnc, h47, h91, h93, _, hdom⟩ := hostPort_facts a hok
-  obtain ⟨pnc, plast, pdom⟩ := prefix_facts a hok
-  have hnoc : noColonH (composeAddr a) = true := noColonH_append _ _ pnc hnc (Or.inl plast)
-  have hind : inAddrDomain (composeAddr a) = true := by
-    unfold composeAddr inAddrDomain at *
-    rw [List.all_append, pdom, hdom]; rfl
-  unfold standardizeAddress
-  simp only [hind, Bool.not_true, Bool.false_eq_true, if_false]
-  have hr1 : replaceFirst (composeAddr a) b!":https" (b!":" ++ httpsPort) = composeAddr a := replaceFirst_noColonH _ _ _ hnoc
-  have hr2 : replaceFirst (composeAddr a) b!":http" (b!":" ++ httpPort) = composeAddr a := replaceFirst_noColonH _ _ _ hnoc
-  rw [hr1, hr2]
-  -- the "//" normalisation
-  have hstr : (if (!containsSub (composeAddr a) b!"//" && !hasPrefix (composeAddr a) b!"/") = true then b!"//" ++ composeAddr a else composeAddr a) =
-      (if a.scheme.isEmpty then [] else a.scheme ++ b!":") ++ (b!"//" ++ (a.host ++ portPart a)) := by
-    unfold composeAddr
-    by_cases hs : a.scheme.isEmpty = true
-    · simp only [hs, if_true, List.nil_append]
-      rw [containsSub_false_of_not_mem _ b!"//" 47 (by simp) h47, hasPrefix_false_of_not_mem _ b!"/" 47 (by simp) h47]
-      simp
-    · simp only [hs, Bool.false_eq_true, if_false]
-      have : containsSub (a.scheme ++ 58 :: 47 :: 47 :: (a.host ++ portPart a)) b!"//" = true := by
-        have := containsSub_mid (a.scheme ++ b!":") b!"//" (a.host ++ portPart a)
-        simpa using this
-      simp [this]
-  rw [hstr, urlParse_authority a hok]
-  simp only
+  rw [composeAddr_eq, standardize_front a.scheme _ hok.1 hnc h47 hdom (parseHost_hostPort a hok), ← composeAddr_eq]
   -- host and port
   have hhn := not_mem_name a.host hok.2.1
-  unfold expectedAddr tablePort tableScheme portPart
+  unfold finishStandardize splitURLHost expectedAddr tablePort tableScheme portPart
   cases hpt : a.port with
   | none =>
     simp only [List.append_nil]
@@ -716,9 +748,18 @@ theorem toLower_tableScheme (s p : Bytes) : toLower (tableScheme (toLower s) p) 
       · exact toLower_idem s
   · exact toLower_idem s
 
+/-- Address.Normalize in terms of `canonHost` -/
+theorem normalize_eq (a : Address) :
+    a.normalize = { a with scheme := toLower a.scheme, host := toLower (canonHost a.host), path := toLower a.path } := by
+  unfold Address.normalize canonHost
+  cases parseIP a.host <;> rfl
+
+theorem canonHost_of_not_ip (h : Bytes) (hn : parseIP h = none) : canonHost h = h := by
+  unfold canonHost; rw [hn]
+
 /-- For every well-formed `[scheme://]name[:port]` whose host is not an IP literal, what the model's
 standardizeAddress + Normalize leave in the Address is what the specification reads from the text. -/
-theorem reader_agrees (a : AddrParts) (hok : a.ok) (hnip : parseIP a.host = none) (r : Address)
+theorem reader_agrees_canon (a : AddrParts) (hok : a.ok) (hcan : canonHost a.host = a.host) (r : Address)
     (h : standardizeAddress (composeAddr a) = .ok r) :
     (r.normalize.scheme, r.normalize.host, r.normalize.port) = readAddr (composeAddr a) := by
   rw [standardize_compose a hok] at h
@@ -729,8 +770,8 @@ theorem reader_agrees (a : AddrParts) (hok : a.ok) (hnip : parseIP a.host = none
   · cases h
   · injection h with h
     subst h
-    unfold Address.normalize
-    simp only [hnip, toLower_tableScheme]
+    rw [normalize_eq]
+    simp only [hcan, toLower_tableScheme]
 
 /-! ## Address.VHost and Address.Key on well-formed addresses -/
 
@@ -739,7 +780,7 @@ theorem vhost_eq_splitScheme (a : Address) : a.vhost = (splitScheme a.original).
   cases indexSub a.original b!"://" 0 <;> rfl
 
 /-- the normalised Address of a well-formed text -/
-theorem normalized_compose (a : AddrParts) (hok : a.ok) (hnip : parseIP a.host = none) (r : Address)
+theorem normalized_compose_canon (a : AddrParts) (hok : a.ok) (hcan : canonHost a.host = a.host) (r : Address)
     (h : standardizeAddress (composeAddr a) = .ok r) :
     r.normalize = { original := composeAddr a, scheme := tableScheme (toLower a.scheme) (tablePort (toLower a.scheme) a.port),
                     host := toLower a.host, port := tablePort (toLower a.scheme) a.port, path := [] } := by
@@ -750,14 +791,14 @@ theorem normalized_compose (a : AddrParts) (hok : a.ok) (hnip : parseIP a.host =
   · cases h
   · injection h with h
     subst h
-    unfold Address.normalize
-    simp only [hnip, toLower_tableScheme]
+    rw [normalize_eq]
+    simp only [hcan, toLower_tableScheme]
     rfl
 
 /-- VHost = the address text without its scheme: `name[:port]` -/
-theorem vhost_compose (a : AddrParts) (hok : a.ok) (hnip : parseIP a.host = none) (r : Address)
+theorem vhost_compose_canon (a : AddrParts) (hok : a.ok) (hcan : canonHost a.host = a.host) (r : Address)
     (h : standardizeAddress (composeAddr a) = .ok r) : r.normalize.vhost = a.host ++ portPart a := by
-  rw [normalized_compose a hok hnip r h, vhost_eq_splitScheme]
+  rw [normalized_compose_canon a hok hcan r h, vhost_eq_splitScheme]
   simp only
   rw [splitScheme_compose a hok]
 
@@ -777,9 +818,9 @@ theorem hasPrefix_self_cons (x : UInt8) (p t : Bytes) : hasPrefix (x :: p ++ t) 
 
 /-- Address.Key of a well-formed address: `[scheme://]name[:port]` with the scheme of the table and the lower-cased name;
 the port is kept when it was written — except that a written 80/443 without scheme is absorbed into the inferred scheme. -/
-theorem key_compose (a : AddrParts) (hok : a.ok) (hnip : parseIP a.host = none) (r : Address)
+theorem key_compose_canon (a : AddrParts) (hok : a.ok) (hcan : canonHost a.host = a.host) (r : Address)
     (h : standardizeAddress (composeAddr a) = .ok r) : r.normalize.key = expectedKey a := by
-  rw [normalized_compose a hok hnip r h]
+  rw [normalized_compose_canon a hok hcan r h]
   unfold Address.key expectedKey
   simp only [List.append_nil]
   by_cases hs : a.scheme.isEmpty = true
@@ -1000,17 +1041,17 @@ theorem expectedAddr_ok_of_key (a : AddrParts) (r : Address) (h : expectedAddr a
 
 /-- ROUND TRIP through the site key: the key of a well-formed address is itself a well-formed address; parsing it again
 gives the same scheme, host and port, and the same key. -/
-theorem key_roundtrip (a : AddrParts) (hok : a.ok) (hnip : parseIP a.host = none) (hnip' : parseIP (toLower a.host) = none)
+theorem key_roundtrip_canon (a : AddrParts) (hok : a.ok) (hcan : canonHost a.host = a.host) (hcan' : canonHost (toLower a.host) = toLower a.host)
     (r : Address) (h : standardizeAddress (composeAddr a) = .ok r) :
     ∃ r', standardizeAddress r.normalize.key = .ok r' ∧ r'.normalize.scheme = r.normalize.scheme ∧
       r'.normalize.host = r.normalize.host ∧ r'.normalize.port = r.normalize.port ∧ r'.normalize.key = r.normalize.key := by
   have hkok := keyParts_ok a hok
-  have hkey := key_compose a hok hnip r h
-  have hnorm := normalized_compose a hok hnip r h
+  have hkey := key_compose_canon a hok hcan r h
+  have hnorm := normalized_compose_canon a hok hcan r h
   have hexp : expectedAddr a = .ok r := by rw [← standardize_compose a hok]; exact h
   obtain ⟨r', hr'⟩ := expectedAddr_ok_of_key a r hexp
   have hstd : standardizeAddress (composeAddr (keyParts a)) = .ok r' := by rw [standardize_compose _ hkok]; exact hr'
-  have hnorm' := normalized_compose (keyParts a) hkok hnip' r' hstd
+  have hnorm' := normalized_compose_canon (keyParts a) hkok hcan' r' hstd
   have hkt := key_table a
   simp only at hkt
   have hkhost : (keyParts a).host = toLower a.host := rfl
@@ -1018,7 +1059,7 @@ theorem key_roundtrip (a : AddrParts) (hok : a.ok) (hnip : parseIP a.host = none
   · rw [hnorm', hnorm]; exact hkt.2
   · rw [hnorm', hnorm]; simp only [hkhost]; exact toLower_idem _
   · rw [hnorm', hnorm]; exact hkt.1
-  · rw [key_compose (keyParts a) hkok hnip' r' hstd, hkey, expectedKey_eq_compose, expectedKey_eq_compose]
+  · rw [key_compose_canon (keyParts a) hkok hcan' r' hstd, hkey, expectedKey_eq_compose, expectedKey_eq_compose]
     congr 1
     -- keyParts is idempotent
     have hs2 : (keyParts (keyParts a)).scheme = (keyParts a).scheme := hkt.2
@@ -1038,5 +1079,32 @@ theorem key_roundtrip (a : AddrParts) (hok : a.ok) (hnip : parseIP a.host = none
         rw [hk, hk1] at hs2 hh2 hp2
         simp only at hs2 hh2 hp2
         rw [hs2, hh2, hp2]
+
+/-! the same statements for hosts that are no IP literals (the forms first proved; kept under their names) -/
+
+theorem reader_agrees (a : AddrParts) (hok : a.ok) (hnip : parseIP a.host = none) (r : Address)
+    (h : standardizeAddress (composeAddr a) = .ok r) :
+    (r.normalize.scheme, r.normalize.host, r.normalize.port) = readAddr (composeAddr a) :=
+  reader_agrees_canon a hok (canonHost_of_not_ip _ hnip) r h
+
+theorem normalized_compose (a : AddrParts) (hok : a.ok) (hnip : parseIP a.host = none) (r : Address)
+    (h : standardizeAddress (composeAddr a) = .ok r) :
+    r.normalize = { original := composeAddr a, scheme := tableScheme (toLower a.scheme) (tablePort (toLower a.scheme) a.port),
+                    host := toLower a.host, port := tablePort (toLower a.scheme) a.port, path := [] } :=
+  normalized_compose_canon a hok (canonHost_of_not_ip _ hnip) r h
+
+theorem vhost_compose (a : AddrParts) (hok : a.ok) (hnip : parseIP a.host = none) (r : Address)
+    (h : standardizeAddress (composeAddr a) = .ok r) : r.normalize.vhost = a.host ++ portPart a :=
+  vhost_compose_canon a hok (canonHost_of_not_ip _ hnip) r h
+
+theorem key_compose (a : AddrParts) (hok : a.ok) (hnip : parseIP a.host = none) (r : Address)
+    (h : standardizeAddress (composeAddr a) = .ok r) : r.normalize.key = expectedKey a :=
+  key_compose_canon a hok (canonHost_of_not_ip _ hnip) r h
+
+theorem key_roundtrip (a : AddrParts) (hok : a.ok) (hnip : parseIP a.host = none) (hnip' : parseIP (toLower a.host) = none)
+    (r : Address) (h : standardizeAddress (composeAddr a) = .ok r) :
+    ∃ r', standardizeAddress r.normalize.key = .ok r' ∧ r'.normalize.scheme = r.normalize.scheme ∧
+      r'.normalize.host = r.normalize.host ∧ r'.normalize.port = r.normalize.port ∧ r'.normalize.key = r.normalize.key :=
+  key_roundtrip_canon a hok (canonHost_of_not_ip _ hnip) (canonHost_of_not_ip _ hnip') r h
 
 end Casket.AutoHTTPS
